@@ -386,6 +386,8 @@ def predicate_atoms(ctx):
         ctx.check(bool(ends), f"{short(p.name)}/suffix-test", [site(b, bb) for b, bb, t in ends] or [p.loc()], "the extension predicate does not compare with `ends_with` (e.g. compares `extension()`, which breaks multi-dot extensions)")
         fname = any(t["callee"]["base"].endswith("Path::file_name") for b in bodies for bb, t in b.calls())
         ctx.check(fname, f"{short(p.name)}/file-name", [p.loc()], "the extension predicate does not test the file *name*")
+        strict = [(b, bb) for b in bodies for bb, t in b.calls() if re.search(r"(OsStr|Path)::to_str$|OsString::into_string$", t["callee"]["base"])]
+        ctx.check(not strict, f"{short(p.name)}/any-file-name", [site(b, bb) for b, bb in strict] or [p.loc()], "the file name is converted with a fallible UTF-8 conversion: a file whose name is not valid UTF-8 never matches its extension and silently drops out of state, cleaning and watching")
         # no-filter case accepted: is_none_or / explicit None edge returning true
         nofilter = any(re.search(r"Option::<.*>::(is_none_or|map_or)(::<.*>)?$", callee_decl(t)) for b in bodies for bb, t in b.calls()) or \
             any(e.label and e.label[0] == "variant" and e.label[2] == ("None",) for e in p.edges)
@@ -613,7 +615,7 @@ def own_writes_in_workdir(ctx):
 
 
 # ------------------------------------------------------------------ C18
-@rule("C18.STATE-PATH-PURE", ["C18", "C03"], """the state file path is a function of the declaring project's directory and the target id only (plus constants)""", "K5", floor=1)
+@rule("C18.STATE-PATH-PURE", ["C18", "C03", "C08"], """the state file path is a function of the declaring project's directory and the target id only (plus constants)""", "K5", floor=1)
 def state_path_pure(ctx):
     r = ctx.r
     f = ctx.f
@@ -716,3 +718,33 @@ def identity(ctx):
         if re.match(r"^<[\w:]*TargetId as std::fmt::Display>::fmt$", x.name):
             allf = {fl for blk in x.normal_blocks() for st in blk["stmts"] for p in rv_sources(st["rv"])[0] for fl in place_fields(p)}
             ctx.check({"project_name", "target_name"} <= allf, "Display", [x.loc()], f"Display of TargetId prints {sorted(allf & {'project_name', 'target_name'})} only: state files / offered names of different projects collide")
+
+
+@rule("C13.FROM-INPUT-LIST-INTACT", ["C13", "C09"], """the list of `X.output` producers returned by the target transformation reaches the inheritance/validation loop intact: nothing is removed
+      from it, and the loop ranges over all of it""", "K5", floor=1)
+def from_input_list_intact(ctx):
+    f = ctx.f
+    rs = ctx.r.resolvers()
+    ctx.need(rs, "resolver")
+    b = rs[0]
+    tf = [(bb, t) for bb, t in b.calls() if callee_base(t) in f.bodies and re.search(r"Result<\([\w:]*Target, ", f.bodies[callee_base(t)].ret)]
+    ctx.need(tf, "call of the target transformation in the resolver")
+    tfn = {callee_base(t) for bb, t in tf}
+    # loops whose iterator derives from the transformation's result and that extend the input / validate the producer
+    ok = False
+    for (nbb, sbb, ne, se, blks, it_atoms) in for_loops(b):
+        if not (atom_callres(it_atoms) & tfn):
+            continue
+        if not any("extend_input" in callee_base(t) for x, t in b.calls() if x in blks):
+            continue
+        ok = True
+        odd = sorted(c for c in atom_callres(it_atoms) if re.search(r"::(filter|filter_map|skip|take|take_while|skip_while|step_by|retain|dedup\w*|drain|truncate|split_off)(::<.*>)?$", c))
+        ctx.check(not odd, f"{short(b.name)}/loop-over-whole-list", [site(b, nbb)], f"the inheritance loop ranges over a filtered list ({odd}): some `X.output` producer is neither validated nor inherited")
+    ctx.check(ok, f"{short(b.name)}/loop", [b.loc()], "no loop over the `X.output` producers that extends the consumer's input")
+    muts = []
+    for bb, t in b.calls():
+        if re.search(r"Vec::<[\w:]*TargetId>::(retain|retain_mut|dedup\w*|drain|truncate|remove|swap_remove|pop|clear|split_off)(::<.*>)?$", callee_decl(t)):
+            at = b.prov.operand_atoms(t["args"][0], interproc=False)
+            if atom_callres(at) & tfn:
+                muts.append(bb)
+    ctx.check(not muts, f"{short(b.name)}/not-mutated", [site(b, x) for x in muts] or [b.loc()], "entries are removed from the list of `X.output` producers before it is inherited/validated")
